@@ -129,6 +129,9 @@ impl Prop for C19 {
                 o.impl_obs = format!("ctr={} ct={}", ctr, preview(&ct)); o.model_obs = shorten(&mct); o.validated += 1;
                 if ct != want { o.oracle_fail = Some(("noise-nonce-layout".into(), format!("Noise AEAD with counter {} does not use nonce 00000000||LE64(counter)", ctr))); }
                 else if mct != format!("ok {}", hex(&ct)) { o.disagreement = Some("noise_seal differs from the model".into()); }
+                // the translated chapoly_encrypt_noise (tools/rs2lean_noise.py) on the same input
+                let sct = m.ask(&format!("noise_seal_src {} {} {} {}", hex(&key), ctr, hexd(&ad), hexd(&pt))); o.validated += 1; o.tags.push("translated lib.rs run".into());
+                if sct != format!("ok {}", hex(&ct)) && o.disagreement.is_none() && o.oracle_fail.is_none() { o.disagreement = Some(format!("the Lean definition translated from chapoly_encrypt_noise differs from the real function at counter {}", ctr)); }
                 let back = guard(|| kestrel_crypto::verif_chapoly_noise_decrypt(&key, ctr, &ad, &ct).map_err(|_| ()));
                 if back != Some(Ok(pt)) && o.oracle_fail.is_none() { o.oracle_fail = Some(("noise-open(seal)=id".into(), fmt_res(&back))); }
             }
@@ -189,6 +192,8 @@ impl Prop for C19 {
                 o.impl_obs = format!("{} {}", hex(&a), hex(&b)); o.model_obs = mr.clone(); o.validated += 1;
                 if [a.clone(), b.clone()].concat() != okm { o.oracle_fail = Some(("hkdf_noise=RFC5869".into(), "hkdf_noise outputs are not HKDF(salt=ck, ikm, info=\"\", 64)".into())); }
                 else if mr != format!("ok {} {}", hex(&a), hex(&b)) { o.disagreement = Some("hkdf_noise differs from the model".into()); }
+                let sr = m.ask(&format!("hkdf_noise_src {} {}", hex(&ck), hexd(&ikm))); o.validated += 1; o.tags.push("translated lib.rs run".into());
+                if sr != format!("ok {} {}", hex(&a), hex(&b)) && o.disagreement.is_none() && o.oracle_fail.is_none() { o.disagreement = Some("the Lean definition translated from hkdf_noise differs from the real function".into()); }
             }
             "hmac" => {
                 let key = rng.bytes(getn(c, "kl")); let msg = rng.bytes(getn(c, "ml"));
